@@ -46,6 +46,7 @@ type Frame struct {
 	prefix       string
 	contract     *FuncContract
 	parent       *Frame
+	firedAnchors map[int]bool // indices of contract.Asserts whose anchor was reached
 	pkg          string
 	entrySt      *State
 	loops        map[*ssa.BasicBlock]*loopInfo
@@ -1196,6 +1197,12 @@ func (g *Gen) VerifyFunction(fn *ssa.Function) (err error) {
 	// vacuity guard: the precondition must be satisfiable
 	g.obls = append(g.obls, &Obligation{Name: funcKey(fn) + "/cover/requires", Kind: "cover", Func: g.fnName, Prefix: g.sc.Len(), Reach: "true", Goal: "true", Cover: true})
 	fr.execBody(st, "true")
+	// an anchored clause whose anchor is never reached would silently stop binding
+	for i, a := range fc.Asserts {
+		if !fr.firedAnchors[i] {
+			g.fail("contract of %s: anchor %q is never reached (clause %s)", funcKey(fn), a.Anchor, a.C.Src)
+		}
+	}
 	names := fr.resultNames()
 	for ri, r := range fr.rets {
 		env := fr.baseEnv(r.st)
